@@ -455,7 +455,19 @@ pub fn clear(t: &Templates, seed: u64, scn: &Value) -> Value {
             }
         }
         let mut src = Chunked { d: &plain, reads: reads.clone(), i: 0 };
-        let mut out = Vec::new();
+        // the sink accepts at most wmax bytes per write call (0: whatever is offered): the size formula holds for any sink
+        struct Limited { out: Vec<u8>, max: usize }
+        impl std::io::Write for Limited {
+            fn write(&mut self, buf: &[u8]) -> std::io::Result<usize> {
+                let n = if self.max == 0 { buf.len() } else { std::cmp::min(self.max, buf.len()) };
+                self.out.extend_from_slice(&buf[..n]);
+                Ok(n)
+            }
+            fn flush(&mut self) -> std::io::Result<()> {
+                Ok(())
+            }
+        }
+        let mut out = Limited { out: Vec::new(), max: ju64_or(scn, "wmax", 0) as usize };
         let ok = catch_unwind(AssertUnwindSafe(|| {
             if api == "key" {
                 let (ep, epk) = (PrivateKey::try_from(&e_priv[..]).unwrap(), PublicKey::try_from(&e_pub[..]).unwrap());
@@ -476,6 +488,7 @@ pub fn clear(t: &Templates, seed: u64, scn: &Value) -> Value {
         if !matches!(ok, Ok(true)) {
             return None;
         }
+        let out = out.out;
         // identity forms an observer could look for
         let b64 = |b: &[u8]| -> Vec<u8> { ct_codecs::Base64::encode_to_string(b).unwrap().into_bytes() };
         use ct_codecs::Encoder;
